@@ -74,8 +74,8 @@ def _int_worker(args):
             c.compose_numeric_array(chunk, width)
             got = bytes(c.composed_bytes)
         except Exception as ex:  # noqa
-            acc.violation('int:compose_raises:w%d:%s:%s' % (width, order, type(ex).__name__),
-                          'compose_numeric_array of in-range values raises %s' % type(ex).__name__, w)
+            acc.violation('int:compose_raises:w%d:%s:%s' % (width, order, core.ename(ex)),
+                          'compose_numeric_array of in-range values raises %s' % core.ename(ex), w)
             continue
         if got != ref:
             bad = next((v for k, v in enumerate(chunk) if got[k * width:(k + 1) * width] != ref[k * width:(k + 1) * width]),
@@ -91,8 +91,8 @@ def _int_worker(args):
             back = p['v']
             plen = p.parsed_length
         except Exception as ex:  # noqa
-            acc.violation('int:parse_raises:w%d:%s:%s' % (width, order, type(ex).__name__),
-                          'parse_numeric_array raises %s' % type(ex).__name__, w)
+            acc.violation('int:parse_raises:w%d:%s:%s' % (width, order, core.ename(ex)),
+                          'parse_numeric_array raises %s' % core.ename(ex), w)
             continue
         if list(back) != chunk or plen != len(ref):
             bad = next((v for v, b in zip(chunk, back) if v != b), None)
@@ -140,8 +140,8 @@ def _range_worker(_):
                     acc.state(core.h64('range', width, order, 'rejected'))
                     continue
                 except Exception as ex:  # noqa
-                    acc.violation('range:wrong_error:w%d:%s' % (width, type(ex).__name__),
-                                  '%d in a %d-byte field raises %s, not InvalidValue' % (v, width, type(ex).__name__), w)
+                    acc.violation('range:wrong_error:w%d:%s' % (width, core.ename(ex)),
+                                  '%d in a %d-byte field raises %s, not InvalidValue' % (v, width, core.ename(ex)), w)
                     continue
                 acc.violation('range:truncated:w%d' % width, '%d does not fit %d bytes but is encoded as %s'
                               % (v, width, bytes(c.composed_bytes).hex()), w)
@@ -199,7 +199,7 @@ def _flag_worker(fi):
                 c.compose_numeric_flags(arg, size, shift)
                 got = bytes(c.composed_bytes)
             except Exception as ex:  # noqa
-                acc.violation('flags:compose_raises:%s:%s' % (label, type(ex).__name__), 'compose_numeric_flags raises',
+                acc.violation('flags:compose_raises:%s:%s' % (label, core.ename(ex)), 'compose_numeric_flags raises',
                               w)
                 continue
             if got != ref:
@@ -209,7 +209,7 @@ def _flag_worker(fi):
         try:
             p.parse_numeric_flags('f', size, en, shift)
         except Exception as ex:  # noqa
-            acc.violation('flags:parse_raises:%s:%s' % (label, type(ex).__name__), 'parse_numeric_flags raises', w)
+            acc.violation('flags:parse_raises:%s:%s' % (label, core.ename(ex)), 'parse_numeric_flags raises', w)
             continue
         got = p['f']
         exp = {m for m in members if int(m) & word & field_mask}
@@ -277,8 +277,8 @@ def _mpint_worker(args):
             c.compose_ssh_mpint(v)
             got = bytes(c.composed_bytes)
         except Exception as ex:  # noqa
-            acc.violation('sshmpint:compose_raises:%s:%s' % ('neg' if v < 0 else 'nonneg', type(ex).__name__),
-                          'compose_ssh_mpint(%s...) raises %s' % (hex(v)[:20], type(ex).__name__), w)
+            acc.violation('sshmpint:compose_raises:%s:%s' % ('neg' if v < 0 else 'nonneg', core.ename(ex)),
+                          'compose_ssh_mpint(%s...) raises %s' % (hex(v)[:20], core.ename(ex)), w)
             got = None
         if got is not None and got != ref and v < 0:
             # the statement demands minimality for non-negative integers only; negatives must round-trip
@@ -298,8 +298,8 @@ def _mpint_worker(args):
             p.parse_ssh_mpint('v')
             back, n = p['v'], p.parsed_length
         except Exception as ex:  # noqa
-            acc.violation('sshmpint:parse_raises:%s:%s' % ('neg' if v < 0 else 'nonneg', type(ex).__name__),
-                          'parse_ssh_mpint of the RFC encoding of %s... raises %s' % (hex(v)[:20], type(ex).__name__), w)
+            acc.violation('sshmpint:parse_raises:%s:%s' % ('neg' if v < 0 else 'nonneg', core.ename(ex)),
+                          'parse_ssh_mpint of the RFC encoding of %s... raises %s' % (hex(v)[:20], core.ename(ex)), w)
             continue
         if back != v or n != len(ref):
             acc.violation('sshmpint:parse_wrong:%s' % ('neg' if v < 0 else 'nonneg'),
@@ -325,8 +325,8 @@ def _mpint_worker(args):
                                           % (v, length), w)
                         continue
                     except Exception as ex:  # noqa
-                        acc.violation('mpint:compose_raises:%s:%s' % (order, type(ex).__name__),
-                                      'compose_mpint raises %s' % type(ex).__name__, w)
+                        acc.violation('mpint:compose_raises:%s:%s' % (order, core.ename(ex)),
+                                      'compose_mpint raises %s' % core.ename(ex), w)
                         continue
                     if not fits:
                         acc.violation('mpint:truncated:%s' % order, '%d does not fit %d bytes, encoded as %s'
@@ -422,8 +422,8 @@ def _ts_worker(args):
                 try:
                     got = comp(dt, False, size)
                 except Exception as ex:  # noqa
-                    acc.violation('timestamp:compose_raises:%s:%s' % (flavour, type(ex).__name__),
-                                  'compose_timestamp raises %s under TZ=%s' % (type(ex).__name__, zone), w)
+                    acc.violation('timestamp:compose_raises:%s:%s' % (flavour, core.ename(ex)),
+                                  'compose_timestamp raises %s under TZ=%s' % (core.ename(ex), zone), w)
                     continue
                 if got != ref:
                     delta = int.from_bytes(got, 'big') - sec
@@ -449,8 +449,8 @@ def _ts_worker(args):
                 try:
                     got = comp(dtm, True, 8)
                 except Exception as ex:  # noqa
-                    acc.violation('timestamp:compose_raises:%s:%s' % (flavour, type(ex).__name__),
-                                  'compose_timestamp(ms) raises %s' % type(ex).__name__, w)
+                    acc.violation('timestamp:compose_raises:%s:%s' % (flavour, core.ename(ex)),
+                                  'compose_timestamp(ms) raises %s' % core.ename(ex), w)
                     continue
                 if got != refms:
                     acc.violation('timestamp:wrong_instant_ms:%s:%s' % (flavour, ztag),
@@ -475,8 +475,8 @@ def _ts_worker(args):
             if got != b'\xff' * size:
                 acc.violation('timestamp:sentinel_wrong:%s' % tag, 'None composes to %s' % got.hex(), w)
         except Exception as ex:  # noqa
-            acc.violation('timestamp:sentinel_raises:%s:%s' % (tag, type(ex).__name__),
-                          'compose_timestamp(None, item_size=%d) raises %s' % (size, type(ex).__name__), w)
+            acc.violation('timestamp:sentinel_raises:%s:%s' % (tag, core.ename(ex)),
+                          'compose_timestamp(None, item_size=%d) raises %s' % (size, core.ename(ex)), w)
         p = ParserBinary(b'\xff' * size)
         try:
             p.parse_timestamp('t', milliseconds=msflag, item_size=size)
@@ -553,14 +553,14 @@ def replay(ctx, w):
                 if bytes(c.composed_bytes) != ref_ssh_mpint(v):
                     acc.violation('sshmpint:compose_wrong:%s' % ('neg' if v < 0 else 'nonneg'), 'wrong', w)
             except Exception as ex:  # noqa
-                acc.violation('sshmpint:compose_raises:%s:%s' % ('neg' if v < 0 else 'nonneg', type(ex).__name__), 'raises', w)
+                acc.violation('sshmpint:compose_raises:%s:%s' % ('neg' if v < 0 else 'nonneg', core.ename(ex)), 'raises', w)
             try:
                 p = ParserBinary(ref_ssh_mpint(v) + b'\xaa')
                 p.parse_ssh_mpint('v')
                 if p['v'] != v:
                     acc.violation('sshmpint:parse_wrong:%s' % ('neg' if v < 0 else 'nonneg'), 'wrong', w)
             except Exception as ex:  # noqa
-                acc.violation('sshmpint:parse_raises:%s:%s' % ('neg' if v < 0 else 'nonneg', type(ex).__name__), 'raises', w)
+                acc.violation('sshmpint:parse_raises:%s:%s' % ('neg' if v < 0 else 'nonneg', core.ename(ex)), 'raises', w)
             res = acc.result()
     else:
         res = _ts_worker((w['zone'], False))
